@@ -219,6 +219,8 @@ pub struct Sim {
     pub disk: Vec<crate::simfs::DiskShadow>,
     /// Print every event-log line (debugging only; never influences behaviour).
     pub trace: bool,
+    /// Traversal-queue refinement monitor (C21).
+    pub qmon: crate::qmon::SharedQMon,
 }
 
 pub fn key_alphabet() -> Vec<Key> {
@@ -303,6 +305,7 @@ impl Sim {
             fs,
             disk: vec![crate::simfs::DiskShadow::default(); n],
             trace: std::env::var_os("DAGSIM_TRACE").is_some(),
+            qmon: crate::qmon::QMon::install(),
         }
     }
 
@@ -325,6 +328,9 @@ impl Sim {
     }
 
     pub fn anomaly(&mut self, what: String) {
+        if what.contains("panicked") {
+            self.qmon.borrow_mut().forget_all();
+        }
         self.note(&format!("ANOMALY {what}"));
         if self.stats.anomalies.len() < 64 {
             self.stats.anomalies.push(format!("step {}: {what}", self.step_no));
@@ -335,6 +341,8 @@ impl Sim {
     /// A panic inside the library: fuel exhaustion is a liveness violation of the property that
     /// owns the step; other panics are violations only where a property defines the outcome.
     pub fn on_panic(&mut self, owner: Option<&str>, what: &str, msg: String) {
+        // An unwound call may have left a queue operation half done.
+        self.qmon.borrow_mut().forget_all();
         if let Some(rest) = msg.strip_prefix(crate::simfs::CRASH_PANIC) {
             // The simulated machine of a file-backed replica lost power inside a system call.
             let r: usize = rest.trim().trim_start_matches('r').split(' ').next().and_then(|x| x.parse().ok()).unwrap_or(0);
